@@ -71,7 +71,100 @@ def contracts(T: Types, reg: Registry):
         note="the current invocation object is an arbitrary object: the same contract holds after the task's current invocation changes "
              "(another workflow, a retry, a recovery re-run), which is the environment step of the cache invariant")
     reg.add(det)
-    return [seq, det]
+    reg.shapes["WorkflowContext"].auto_fields = True
+    reg.ann_types = dict(getattr(reg, "ann_types", {}), InvocationId=Atom("InvocationId"), DeterministicExecutor=EXEC)
+    reg.shapes["CurrentInvocation"].fields["invocation_id"] = Atom("InvocationId")
+    sub = subtask_contract(T, reg)
+    return [seq, det, sub]
+
+
+def subtask_contract(T: Types, reg: Registry):
+    """DeterministicExecutor.execute_task: launch-or-replay of a sub-task, keyed by the identity of the call that the body makes."""
+    from pyvc.values import OK, Val, mk_fresh
+    CALLID, INVID, ARGS, FUNC = Atom("CallId"), Atom("InvocationId"), Atom("CallArguments"), Atom("Func")
+    OINV = Opt(INVID)
+    SUBINV = Atom("SubInvocation")
+    inv_id_of = z3.Function("invocation_id_of", SUBINV.sort(), INVID.sort())
+    call_id_of = z3.Function("call_id_of_call", Atom("CallObj").sort(), CALLID.sort())
+    stored_inv = z3.Function("stored_invocation", INVID.sort(), SUBINV.sort())
+    WD_T = MapT(STR, INVID)
+    reg.add_shape(Shape("WfStateBackend", fields={"wd": WD_T}, abstract_methods={
+        "get_workflow_data": "WfStateBackend.get", "set_workflow_data": "WfStateBackend.set", "get_invocation": "WfStateBackend.get_invocation"}))
+    reg.add(Contract(key="WfStateBackend.get", shape="WfStateBackend", params={"workflow_identity": WF, "key": STR, "default": OINV}, result=OINV, frame=[],
+                     defaults={"default": lambda eng, st: NONE}, assumed=True, check_invariants=False,
+                     cases=[Case("read", ensures=[("stored-or-none", lambda c: c.result == z3.If(
+                         WD_T.opt.is_some(z3.Select(c.old("wd"), c.arg("key"))), OINV.some(WD_T.opt.val(z3.Select(c.old("wd"), c.arg("key")))), OINV.none()))])],
+                     note="workflow data of this workflow (the workflow identity is the executor's: C18 kernel)"))
+    reg.contracts["WfStateBackend.get"].event = True
+    reg.add(Contract(key="WfStateBackend.set", shape="WfStateBackend", params={"workflow_identity": WF, "key": STR, "value": INVID}, frame=["wd"],
+                     assumed=True, check_invariants=False,
+                     cases=[Case("written", ensures=[("one-entry", lambda c: c.f("wd") == z3.Store(c.old("wd"), c.arg("key"), WD_T.opt.some(c.arg("value"))))])]))
+    reg.add(Contract(key="WfStateBackend.get_invocation", shape="WfStateBackend", params={"invocation_id": INVID}, result=SUBINV, frame=[], assumed=True,
+                     check_invariants=False, effect_events=False,
+                     cases=[Case("stored", ensures=[("the-stored-invocation-of-that-id", lambda c: z3.And(c.result == stored_inv(c.arg("invocation_id")),
+                                                                                                      inv_id_of(c.result) == c.arg("invocation_id")))])]))
+    reg.add_shape(Shape("WfApp", fields={"state_backend": ObjT("WfStateBackend")}))
+    reg.add_shape(Shape("ExecutorObj", fields={"app": ObjT("WfApp"), "workflow_identity": WF, "_operation_counters": COUNTERS},
+                        cls=(WD, "DeterministicExecutor")))
+    reg.add_shape(Shape("SubTask", fields={"func": FUNC}))
+    reg.value_attrs = getattr(reg, "value_attrs", {})
+    reg.value_attrs[("CallObj", "call_id")] = lambda eng, st, base: Val(call_id_of(base.term), CALLID)
+    reg.value_attrs[("SubInvocation", "invocation_id")] = lambda eng, st, base: Val(inv_id_of(base.term), INVID)
+    inv_call = z3.Function("call_of_invocation", SUBINV.sort(), Atom("CallObj").sort())
+    reg.value_attrs[("SubInvocation", "call")] = lambda eng, st, base: Val(inv_call(base.term), Atom("CallObj"))
+    the_call = z3.Function("call_made_by_the_body", Atom("SubTaskRef").sort(), Atom("VarArgs").sort(), Atom("KwArgs").sort(), Atom("CallObj").sort())
+
+    def h_from_call(eng, st, recv, args, kwargs):
+        return [(OK, st, mk_fresh(ARGS, "arguments"))]
+    reg.add(Contract(key=f"{WD}:Arguments.from_call", handler=h_from_call, assumed=True, note="binds *args/**kwargs to the task's signature"))
+    reg.add(Contract(key="pynenc.arguments:Arguments.from_call", handler=h_from_call, assumed=True))
+
+    def h_call(eng, st, recv, args, kwargs):
+        # Call(task=task, arguments=arguments): the call the body makes; its identity is a function of task and arguments
+        a = st.ghost["$args"]
+        c = Val(the_call(z3.Const("the_task", Atom("SubTaskRef").sort()), a["args"].term, a["kwargs"].term), Atom("CallObj"))
+        return [(OK, st, c)]
+    for key in (f"{WD}:Call", "pynenc.call:Call"):
+        reg.add(Contract(key=key, handler=h_call, assumed=True, note="Call(task, Arguments.from_call(task.func, *args, **kwargs)): determined by task and arguments"))
+    launched = []
+
+    def h_launch(eng, st, recv, args, kwargs):
+        inv = mk_fresh(SUBINV, "launched")
+        st.events.append({"ev": "launch", "invocation": inv})
+        return [(OK, st, inv)]
+    reg.add(Contract(key="SubTask.__call__", handler=h_launch, assumed=True,
+                     note="task(*args, **kwargs): routes the call; with registration concurrency control the returned invocation may be an existing one "
+                          "whose own call differs from the call made here (ReusedInvocation)"))
+    reg.shapes["SubTask"].callable = "SubTask.__call__"
+    key_of = lambda call_term: z3.Concat(z3.StringVal("task_invocation:"), z3.Function("format_CallId", CALLID.sort(), z3.StringSort())(call_id_of(call_term)))
+
+    def body_call(c):
+        a = c.st.ghost["$args"]
+        return the_call(z3.Const("the_task", Atom("SubTaskRef").sort()), a["args"].term, a["kwargs"].term)
+    wd, wd0 = (lambda c: c.f("app.state_backend.wd")), (lambda c: c.old("app.state_backend.wd"))
+    k = lambda c: key_of(body_call(c))
+    recorded = lambda c: WD_T.opt.is_some(z3.Select(wd0(c), k(c)))
+
+    def launches(c):
+        return [e for e in c.st.events if isinstance(e, dict) and e.get("ev") == "launch"]
+    ct = reg.add(Contract(
+        key=f"{WD}:DeterministicExecutor.execute_task", shape="ExecutorObj", params={"task": ObjT("SubTask")}, result=SUBINV,
+        frame=["app.state_backend.wd"],
+        cases=[
+            Case("replayed", when=recorded, ensures=[
+                ("C18:a-recorded-sub-task-is-not-launched-again", lambda c: z3.BoolVal(not launches(c))),
+                ("C18:the-recorded-invocation-is-returned", lambda c: c.result == stored_inv(WD_T.opt.val(z3.Select(wd0(c), k(c))))),
+                ("records-untouched", lambda c: wd(c) == wd0(c))]),
+            Case("launched-and-recorded", when=lambda c: z3.Not(recorded(c)), ensures=[
+                ("exactly-one-launch", lambda c: z3.BoolVal(len(launches(c)) == 1)),
+                ("C18:the-launched-invocation-is-recorded-under-the-key-of-the-call-the-body-made(the key a replay will look up)",
+                 lambda c: wd(c) == z3.Store(wd0(c), k(c), WD_T.opt.some(inv_id_of(c.result))) if launches(c) else z3.BoolVal(False)),
+                ("the-launched-invocation-is-returned", lambda c: c.result == launches(c)[0]["invocation"].term if launches(c) else z3.BoolVal(False))]),
+        ], properties=[PID],
+        note="*args/**kwargs are opaque values handed through; the lookup key is 'task_invocation:' + the call id of the call built from them"))
+    ct.opaque_varargs = True
+    return ct
+
 
 
 def replay_and_isolation(ctx: RunCtx) -> BoundedResult:
@@ -130,6 +223,32 @@ def replay_and_isolation(ctx: RunCtx) -> BoundedResult:
                     if out is None or stored != out or extra is not None:
                         res.failures.append({"what": f"{backend}: values of workflow {inv.workflow.workflow_id[:8]} are {out}, recorded under its id: {stored}, "
                                                      f"a 4th record exists: {extra is not None} (records of two workflows mixed)", "finding_key": f"{backend}:mixed"})
+            finally:
+                app.runner.stop_runner_loop()
+                th.join(10)
+        # a retry executed in the same process replays the first execution's values and records nothing new
+        with real_app(backend) as app:
+            from pynenc.runner.thread_runner import ThreadRunner
+            t = app.task(max_retries=2, retry_for=(verif_tasks.Retriable,))(verif_tasks.wf_randoms_retry)
+            verif_tasks.WF_TASK[0] = t
+            verif_tasks.RETRY_ONCE[0] = True
+            app.runner = ThreadRunner(app)
+            app.conf.runner_loop_sleep_time_sec = 0.01
+            th = threading.Thread(target=app.runner.run, daemon=True)
+            th.start()
+            try:
+                inv = t(3)
+                box = {}
+                w = threading.Thread(target=lambda: box.setdefault("v", inv.result), daemon=True)
+                w.start()
+                w.join(20)
+                n += 1
+                out = box.get("v")
+                stored = [app.state_backend.get_workflow_data(inv.workflow, f"random:{k}") for k in (1, 2, 3)]
+                extra = app.state_backend.get_workflow_data(inv.workflow, "random:4")
+                if out is None or stored != out or extra is not None:
+                    res.failures.append({"what": f"{backend}: retried execution returned {out}; records 1..3 are {stored}; a 4th record exists: {extra is not None} "
+                                                 f"(the retry continued at the old positions instead of replaying)", "finding_key": f"{backend}:retry-replay"})
             finally:
                 app.runner.stop_runner_loop()
                 th.join(10)
